@@ -55,6 +55,15 @@ func init() {
 	reg(&Rule{ID: "R-C20-pcsbalance", Props: []string{"C20", "C04"}, Floor: 2,
 		Doc: "optimizeTailRec's stack of enclosing function entries is pushed unconditionally at every opscope and popped at every opret (guarded at most by an emptiness test): the entry on top is the function the current instruction belongs to",
 		Run: rulePcsBalance})
+	reg(&Rule{ID: "R-C20-limitowner", Props: []string{"C20", "C01"}, Floor: 4,
+		Doc: "the persistence limit of the data stack and of the scope stack is read and written only by the stacks' own methods and by env.popscope, the single place that decides whether a returning frame may be released (R-C20-frame checks that decision itself)",
+		Run: ruleLimitOwner})
+	reg(&Rule{ID: "R-C12-encoderfresh", Props: []string{"C12", "C15"}, Floor: 2,
+		Doc: "an output encoder (newEncoder, createMarshaler) lives no longer than the function that made it: it is never stored in a field of the cli value or in a package variable (its indentation depth and buffer are per-use state; a cached encoder carries a failed write's state into the next input)",
+		Run: ruleEncoderFresh})
+	reg(&Rule{ID: "R-C16-slurpjson", Props: []string{"C16"}, Floor: 1,
+		Doc: "--slurpfile/--rawfile/--argjson readers are independent of the input-format flags: nothing reachable from slurpFile reads cli.inputRaw/inputStream/inputYAML/inputSlurp (those select the reader of the main input only)",
+		Run: ruleSlurpJSON})
 	reg(&Rule{ID: "R-C16-stdinclose", Props: []string{"C16"}, Floor: 1,
 		Doc: "an input reader that may be the process's stdin is closed only under a test that it is not stdin: `-` can be named twice and stdin outlives the iterator",
 		Run: ruleStdinClose})
@@ -1509,3 +1518,180 @@ func ruleParallel(c *Ctx, r *Rep) {
 	}
 }
 
+
+// ---------------------------------------------------------------------------------------------------------------------
+
+func ruleLimitOwner(c *Ctx, r *Rep) {
+	p := c.Gojq
+	info := p.TypesInfo
+	n := 0
+	for _, fd := range c.Decls(p) {
+		if fd.Body == nil {
+			continue
+		}
+		owner := recvTypeName(fd)
+		ast.Inspect(fd.Body, func(q ast.Node) bool {
+			sel, ok := q.(*ast.SelectorExpr)
+			if !ok || sel.Sel.Name != "limit" {
+				return true
+			}
+			s := info.Selections[sel]
+			if s == nil || s.Kind() != types.FieldVal {
+				return true
+			}
+			recv := derefType(s.Recv())
+			which := ""
+			switch {
+			case isNamed(recv, pathGojq, "stack"):
+				which = "stack"
+			case isNamed(recv, pathGojq, "scopeStack"):
+				which = "scopeStack"
+			default:
+				return true
+			}
+			n++
+			allowed := owner == which || (declKey(fd) == "env.popscope" && which == "scopeStack")
+			key := fmt.Sprintf("bounds:%s:%s.%s", declKey(fd), which, sel.Sel.Name)
+			r.Check(allowed, key, sel.Pos(), "%s reads or writes %s.%s: allowed (a method of %s, or env.popscope): %v — a second copy of the frame-release decision can disagree with popscope (`>=` for `>` releases a frame a pending fork still needs)", declKey(fd), which, sel.Sel.Name, which, allowed)
+			return true
+		})
+	}
+	if n == 0 {
+		r.Undecided("census", token.NoPos, "no access to the stacks' limit field found")
+	}
+}
+
+// ---------------------------------------------------------------------------------------------------------------------
+
+func ruleEncoderFresh(c *Ctx, r *Rep) {
+	n := 0
+	for _, fn := range c.PkgFuncs(c.Cli) {
+		for _, b := range fn.Blocks {
+			for _, ins := range b.Instrs {
+				call, ok := ins.(*ssa.Call)
+				if !ok {
+					continue
+				}
+				callee := call.Common().StaticCallee()
+				if callee == nil || callee.Pkg == nil || callee.Pkg.Pkg.Path() != pathCli {
+					continue
+				}
+				if callee.Name() != "newEncoder" && callee.Name() != "createMarshaler" {
+					continue
+				}
+				n++
+				// follow the value through conversions, interface boxing, phis and composite construction
+				bad := ""
+				seen := map[ssa.Value]bool{}
+				var follow func(v ssa.Value)
+				follow = func(v ssa.Value) {
+					if seen[v] || bad != "" {
+						return
+					}
+					seen[v] = true
+					refs := v.Referrers()
+					if refs == nil {
+						return
+					}
+					for _, ref := range *refs {
+						switch x := ref.(type) {
+						case *ssa.MakeInterface:
+							follow(x)
+						case *ssa.ChangeInterface:
+							follow(x)
+						case *ssa.ChangeType:
+							follow(x)
+						case *ssa.Phi:
+							follow(x)
+						case *ssa.Store:
+							if x.Val != v {
+								continue
+							}
+							switch a := x.Addr.(type) {
+							case *ssa.Global:
+								bad = "the package variable " + a.Name()
+							case *ssa.FieldAddr:
+								if isNamed(derefType(a.X.Type()), pathCli, "cli") {
+									bad = "the field cli." + fieldName(a)
+								} else if al, ok := a.X.(*ssa.Alloc); ok {
+									follow(al) // a wrapper built around it (rawMarshaler{m})
+								}
+							case *ssa.Alloc:
+								// a local cell: its loads carry the value on
+								for _, r2 := range *a.Referrers() {
+									if ld, ok := r2.(*ssa.UnOp); ok && ld.Op == token.MUL {
+										follow(ld)
+									}
+								}
+							}
+						}
+					}
+				}
+				follow(call)
+				r.Check(bad == "", fmt.Sprintf("encoder:%s:%s", fnKey(fn), callee.Name()), ins.Pos(), "the encoder made by %s in %s is stored in %s", callee.Name(), fnKey(fn),
+					map[bool]string{true: "nothing that outlives the function", false: bad + ": it would be reused for later inputs with whatever depth and buffer an earlier, possibly failed, use left"}[bad == ""])
+			}
+		}
+	}
+	if n == 0 {
+		r.Undecided("census", token.NoPos, "no call of newEncoder/createMarshaler found in package cli")
+	}
+}
+
+// ---------------------------------------------------------------------------------------------------------------------
+
+func ruleSlurpJSON(c *Ctx, r *Rep) {
+	p := c.Cli
+	info := p.TypesInfo
+	var roots []*ast.FuncDecl
+	for _, k := range []string{"slurpFile", "cli.slurpFile"} {
+		if fd := c.Decl(p, k); fd != nil {
+			roots = append(roots, fd)
+		}
+	}
+	if len(roots) == 0 {
+		r.Undecided("anchor", token.NoPos, "slurpFile not found in package cli")
+		return
+	}
+	seen := map[*ast.FuncDecl]bool{}
+	queue := append([]*ast.FuncDecl(nil), roots...)
+	bad := 0
+	for len(queue) > 0 {
+		fd := queue[0]
+		queue = queue[1:]
+		if seen[fd] {
+			continue
+		}
+		seen[fd] = true
+		ast.Inspect(fd.Body, func(q ast.Node) bool {
+			switch x := q.(type) {
+			case *ast.CallExpr:
+				if o := callee(info, x); o != nil && o.Pkg() != nil && o.Pkg().Path() == pathCli {
+					if f, ok := o.(*types.Func); ok {
+						key := f.Name()
+						if recv := f.Type().(*types.Signature).Recv(); recv != nil {
+							if nt := namedOf(derefType(recv.Type())); nt != nil {
+								key = nt.Obj().Name() + "." + f.Name()
+							}
+						}
+						if d := c.Decl(p, key); d != nil {
+							queue = append(queue, d)
+						}
+					}
+				}
+			case *ast.SelectorExpr:
+				if s := info.Selections[x]; s != nil && s.Kind() == types.FieldVal && isNamed(derefType(s.Recv()), pathCli, "cli") {
+					switch x.Sel.Name {
+					case "inputRaw", "inputStream", "inputYAML", "inputSlurp", "inputNull":
+						bad++
+						r.Bad("slurp:"+declKey(fd)+":"+x.Sel.Name, x.Pos(), "%s, reached from slurpFile, reads cli.%s: the file given to --slurpfile would be read as lines, as a stream or as YAML when the *main* input is, and $name would no longer hold the parsed JSON values", declKey(fd), x.Sel.Name)
+					}
+				}
+			}
+			return true
+		})
+	}
+	if bad == 0 {
+		r.OK("slurp:independent", roots[0].Pos(), "%d functions reachable from slurpFile; none reads an input-format flag", len(seen))
+	}
+}
